@@ -217,6 +217,10 @@ func genU16List(r *rng, n int, pool []uint16, mode int) []uint16 {
 func isGreaseGo(v uint16) bool { return v&0x0f0f == 0x0a0a && v>>8 == v&0xff }
 
 func listLen(r *rng) int {
+	if r.chance(1, 12) {
+		// counts around the 8-bit and the two-digit boundaries (JA4 prints min(count, 99))
+		return []int{98, 99, 100, 101, 255, 256, 257, 299, 300, 354, 355, 356, 511, 512, 600}[r.intn(15)]
+	}
 	switch r.intn(8) {
 	case 0:
 		return 0
@@ -254,9 +258,10 @@ func genHello(r *rng) *Hello {
 	}
 	used := map[uint16]bool{}
 	nExt := listLen(r)
-	if nExt > 60 {
+	if nExt > 60 && nExt < 250 {
 		nExt = 60 + r.intn(50)
 	}
+	many := nExt >= 250
 	mode := r.intn(8)
 	for i := 0; i < nExt; i++ {
 		var e Ext
@@ -285,16 +290,19 @@ func genHello(r *rng) *Hello {
 		default:
 			// unknown / opaque extension types that neither tlsx nor crypto/tls interpret structurally
 			t := []uint16{23, 65281, 35, 5, 18, 51, 45, 27, 21, 17513, 0xff00, 0x8000, 12345, 7, 9}[r.intn(15)]
-			if r.chance(1, 4) {
+			if r.chance(1, 4) || many {
 				t = r.u16()
 			}
-			if r.chance(1, 8) {
+			if r.chance(1, 8) && !many {
 				t = r.pick16(greaseVals)
 			}
 			if r.chance(1, 10) {
 				t = r.pick16(nearGrease)
 			}
 			e = Ext{Kind: "raw", Type: t, Bytes: r.bytes(r.intn(12))}
+			if many {
+				e.Bytes = r.bytes(r.intn(3))
+			}
 			if t == 0 || t == 10 || t == 11 || t == 13 || t == 16 || t == 43 {
 				continue
 			}
